@@ -78,7 +78,7 @@ def worker(pid, tier, seed, shard, nshards, outpath):
             kept[key] = kept.get(key, 0) + 1
             if kept[key] <= MAX_KEEP:
                 v = dict(v)
-                v["case"] = case
+                v["case"] = v.pop("replay_case", None) or case
                 out["violations"].append(v)
         if res.sample is not None and len(out["samples"]) < 3:
             out["samples"].append(res.sample)
